@@ -832,11 +832,6 @@ class Interp:
         r = 1
         while (r + 1) * need_boards <= avail and r < 4:
             r += 1
-        if self.cfg.get('chip', 'int') in ('float', 'dec'):
-            # known finding G1: keep board_count a power of two
-            while (r * s.starting_board_count) & (
-                    r * s.starting_board_count - 1):
-                r -= 1
         return r
 
     def _args_runout(self):
@@ -852,11 +847,6 @@ class Interp:
             cnt = None
         else:
             cnt = min(m if m <= 3 else 2, cap)
-            if self.cfg.get('chip', 'int') in ('float', 'dec'):
-                b = s.starting_board_count
-                while (cnt * b) & (cnt * b - 1):
-                    cnt -= 1
-                    self._exclude('real_chips_division_by_3')
         if player is None:
             return (cnt,) if cnt is not None else ()
         return (cnt, player)
